@@ -939,7 +939,7 @@ func judgeC04(c c04Case) (v core.Verdict) {
 
 func TestC04(t *testing.T) {
 	core.Run(t, "C04",
-		"typed expression trees (depth<=5) over numeric (also character constants)/string/bool literals and Execute variables of every Go int/uint/float kind plus string and bool, unsigned values beyond MaxInt64 on the right of floating-point operands, the same operand on both sides of == / != (also a NaN), context as a map or as a pointer to a struct; minimal + random redundant parentheses; every operator spaced on both sides or neither; && || ?: operands wrapped in logging probes; also: a negation written in front of an unparenthesised comparison (!a == b is !(a == b)); a quarter of the cases with VarMap entries of kind Interface (what reflect hands out for the entries of a map[string]interface{}); round 10: unary plus (on signed, unsigned and floating-point operands, and on unsigned values beyond MaxInt64 in comparisons); non-trivial = >=2 operators with two different precedence levels adjacent without parentheses or a no-space operator, or a probe inside a branch the lazy operators must skip; shapes whose meaning the statement leaves open are discarded and counted",
+		"typed expression trees (depth<=5) over numeric (also character constants)/string/bool literals and Execute variables of every Go int/uint/float kind plus string and bool, unsigned values beyond MaxInt64 on the right of floating-point operands, the same operand on both sides of == / != (also a NaN), context as a map or as a pointer to a struct; minimal + random redundant parentheses; every operator spaced on both sides or neither; && || ?: operands wrapped in logging probes; also: a negation written in front of an unparenthesised comparison (!a == b is !(a == b)); a quarter of the cases with VarMap entries of kind Interface (what reflect hands out for the entries of a map[string]interface{}); round 10: unary plus (on signed, unsigned and floating-point operands, and on unsigned values beyond MaxInt64 in comparisons); round 11: operands that come out of a Go function with the results (interface{}, error); non-trivial = >=2 operators with two different precedence levels adjacent without parentheses or a no-space operator, or a probe inside a branch the lazy operators must skip; shapes whose meaning the statement leaves open are discarded and counted",
 		genC04, judgeC04)
 }
 
